@@ -11,7 +11,8 @@ PROPERTY = "C13"
 PRELOAD_NETWORK_ORDERS = [["btc", "xtn", "ltc", "bch", "grs", "doge", "dash", "btg"], ["btg", "grs", "bch", "doge", "ltc", "xtn", "btc"]]
 LEVEL = "exploration"
 TECHNIQUE = ("integer arithmetic model of the split pool + caller-activity histories after a build + single-discrepancy source databases "
-             "verified in several transaction states / call histories + exact rational conversion oracle")
+             "verified in several transaction states / call histories + edit -> re-query histories on one transaction object against a "
+             "model of the caller's edits + exact rational conversion oracle")
 RULE = ("cases: (a) create_tx / distribute_from_split_pool builds with 1..8 spendables (objects, text, dict forms), payables mixing fixed "
         "amounts and 0..6 unspecified outputs, fees 0..sum(inputs); every remainder class R mod k for k<=8 and the boundary R in {k-1,k,k+1} "
         "are enumerated, the rest is seeded random; about 40% of the create_tx builds are followed by 1-3 caller activities (edits of the "
@@ -24,7 +25,15 @@ RULE = ("cases: (a) create_tx / distribute_from_split_pool builds with 1..8 spen
         "left unsigned / inputs filled with scripts and-or witness stacks / really signed (p2pkh, p2wpkh, p2pk sources), a dict or a get-only "
         "database, and verified once or in a history of 2-3 verifications on the same object (faithful and discrepant records installed in "
         "turn through set_unspents or attribute edits); (d) the four converters on every amount 0..3000, neighbourhoods of 10^k, 10^8, 21e14 and "
-        "random amounts, as Decimal, int and decimal strings in several spellings. Non-trivial: k>=1 or a discrepancy or amount != 0.")
+        "random amounts, as Decimal, int and decimal strings in several spellings; (e) histories on ONE transaction object (sometimes two with "
+        "the same id): made by create_tx, by hand + set_unspents, by the constructor's unspents= argument (complete, too long, too short, "
+        "with a None, absent) or parsed from bytes with or without trailing records; then 1-4 rounds of [1-2 changes, readings], the changes "
+        "drawn from set_unspents (right / wrong length), unspents_from_db (full database, a source missing, ignore_missing), parse_unspents, "
+        "tx.unspents[i]=..., .coin_value=, .script=, append / pop / assignment of tx.unspents, txs_in pop / append with or without the record, "
+        "txs_out value / append / pop / assignment, zeroing outputs + distribute_from_split_pool (feasible or not), a second object with the "
+        "same inputs and outputs (from_bin + set_unspents, constructor, as_hex(include_unspents=True) -> from_hex) used in turn with the "
+        "first; the readings fee / total_in / total_out / validate_unspents in random order and subset; distinct by entry and the sequence of "
+        "operations. Non-trivial: k>=1 or a discrepancy or amount != 0 or a history.")
 ASSUMPTIONS = [
     "an output is 'unspecified' when its payable is a bare address or carries amount 0 (create_tx docstring); 'insufficient funds raise an "
     "error' is read under the statement's condition 'when some outputs are left unspecified' (k >= 1): with k = 0 the fee argument does not "
@@ -42,13 +51,27 @@ ASSUMPTIONS = [
     "long as it exists: what the caller later does with containers it owns (the spendables list / tuple, dict-form entries, the payables "
     "list), with another transaction built from the same spendables, or a repeated distribute_from_split_pool must not change it. Edits of "
     "the Spendable objects themselves and of a list handed to Tx.set_unspents are not judged (those objects are shared by design)",
+    "'the reported fee always equals inputs minus outputs' holds at every reading during the life of a transaction object, whatever was "
+    "read before and however the caller changed the recorded unspents, the inputs or the outputs in between (public mutators, the "
+    "constructor argument, in-place edits of the public lists / attributes). 'inputs' = the recorded amounts of the outputs the inputs "
+    "spend, record i belonging to input i. With one record per input a reading must return that number. With more records than inputs "
+    "a reading may refuse (any exception; the unchanged library does) or answer with the records paired to the inputs (by position, or by "
+    "outpoint when each input finds exactly one Spendable record naming it), never with a sum that counts coins not spent. With an "
+    "input that has no record (list too short, a None entry, a zero-amount entry of the serialised form) no number is the fee (every coin "
+    "of the workload is worth >= 1): a reading must not return one. Histories in which the caller itself misaligns an equal number of "
+    "records and inputs are not generated",
+    "in a history, validate_unspents is judged on the records paired with the inputs: it must return the fee when all of them equal their "
+    "sources (one record per input), must not return when one differs, and with surplus records may refuse",
+    "set_unspents / unspents_from_db / parse_unspents / distribute_from_split_pool are taken to do what their docstrings say when they "
+    "return; when one raises, the model is re-read from the object's public attributes (a reading after a failed call is still judged)",
     "the verification clause does not depend on the state of the spending transaction (inputs empty, filled in or signed; unspents given as "
     "Spendable or TxOut; verified before or not) nor on the database being a dict: a get(hash)-only object like pycoin.services.tx_db.TxDb "
     "is as good; input scripts / witnesses written by the check are arbitrary bytes because validate_unspents is not a signature check",
 ]
 EXPLANATION = ("outputs, unspents, fee()/total_in()/total_out() of every built transaction are compared with a pure integer model written "
                "from the statement, straight after construction and again after each later caller activity; validate_unspents must return the fee on a faithful database and must not return on any single "
-               "discrepancy; converter results are compared as exact rationals")
+               "discrepancy; converter results are compared as exact rationals; in edit -> re-query histories every reading is compared with inputs minus "
+               "outputs recomputed from a model of the caller's edits, and a disagreement is reduced to the steps it needs before it is named")
 TIMEOUT = {"quick": 600, "thorough": 3 * 3600}
 
 NETS = ["BTC", "XTN", "LTC", "BCH", "BTG"]
@@ -65,10 +88,11 @@ def configurations(tier):
 
 def plan(tier, seed):
     if tier == "quick":
-        return ([{"kind": "split_exhaustive"}, {"kind": "build_sweep"}] + [{"kind": "build", "n": 10000} for _ in range(6)] +
-                [{"kind": "validate", "n": 1500} for _ in range(5)] + [{"kind": "convert_sweep"}] + [{"kind": "convert", "n": 90000} for _ in range(2)])
+        return ([{"kind": "split_exhaustive"}, {"kind": "build_sweep"}] + [{"kind": "build", "n": 12000} for _ in range(5)] +
+                [{"kind": "validate", "n": 1900} for _ in range(4)] + [{"kind": "history", "n": 5000} for _ in range(2)] +
+                [{"kind": "convert_sweep"}] + [{"kind": "convert", "n": 90000} for _ in range(2)])
     return ([{"kind": "split_exhaustive"}, {"kind": "build_sweep"}] + [{"kind": "build", "n": 600000} for _ in range(16)] +
-            [{"kind": "validate", "n": 90000} for _ in range(12)] + [{"kind": "convert_sweep"}] + [{"kind": "convert", "n": 4500000} for _ in range(6)])
+            [{"kind": "validate", "n": 90000} for _ in range(12)] + [{"kind": "history", "n": 120000} for _ in range(8)] + [{"kind": "convert_sweep"}] + [{"kind": "convert", "n": 4500000} for _ in range(6)])
 
 
 # ---------------------------------------------------------------------------------------------
@@ -124,7 +148,22 @@ def selftest(rec):
     assert Fraction(decimal.Decimal("20999999.99999999")) == Fraction(MAXV - 1, 10 ** 8)
     assert _dec_strings(123456789, 8)[0] == "1.23456789" and "1.5" in _dec_strings(150000000, 8) and "15" in _dec_strings(1500000, 5)
     assert R.selftest() == 3
-    return {"split_uniqueness_bruteforce": n, "model_examples": 9}
+    # the history reference on hand-made states: coins 0..2 worth 10, 20, 30
+    coins = [{"tx_hash": bytes([i]) * 32, "tx_out_index": i, "coin_value": 10 * (i + 1), "script": b"\x51"} for i in range(3)]
+
+    def r_(c, v=None, form="spendable"):
+        return {"coin": c if form == "spendable" else None, "v": coins[c]["coin_value"] if v is None else v, "s": b"\x51"}
+    ref = lambda ins, unsp: _hist_reference({"ins": ins, "outs": [], "unsp": unsp}, coins)
+    assert ref([0, 1], [r_(0), r_(1)]) == ("consistent", [(30, False)])
+    assert ref([0, 1], [r_(0), r_(1, 21)]) == ("consistent", [(31, True)])
+    assert ref([0, 1], [r_(0, form="txout"), r_(1, form="txout")]) == ("consistent", [(30, False)])
+    assert ref([0, 1], [r_(0)]) == ("unrecorded", []) and ref([0, 1], [r_(0), None]) == ("unrecorded", []) and ref([0], []) == ("unrecorded", [])
+    assert ref([0, 1], [r_(0), r_(1), r_(2)]) == ("surplus", [(30, False)])            # never 60
+    assert ref([0, 2], [r_(0), r_(1), r_(2)]) == ("surplus", [(40, False)])            # input 1 dropped: paired by outpoint
+    assert ref([0, 2], [r_(0, form="txout"), r_(1, form="txout"), r_(2, form="txout")]) == ("surplus", [(30, True)])   # by position only
+    assert ref([1, 0], [r_(0), r_(1)]) == ("unjudged", [])
+    assert ref([0, 1], [r_(0), None, r_(2)]) == ("unrecorded", [])
+    return {"split_uniqueness_bruteforce": n, "model_examples": 9, "history_reference_examples": 12}
 
 
 # ---------------------------------------------------------------------------------------------
@@ -831,6 +870,705 @@ def run_validate(spec, rec, nets):
 
 
 # ---------------------------------------------------------------------------------------------
+# edit -> re-query histories on one transaction object
+#
+# "The reported fee always equals inputs minus outputs" is a statement about every moment of a transaction object's life, not
+# only the moment after create_tx returned. A caller queries, changes what the transaction records about the coins it spends
+# (through every public mutator, through the constructor argument, or in place), changes inputs or outputs, and queries again.
+# The model below follows the caller's edits; the reference is recomputed from the model at each query.
+
+HIST_GROUPS = ["construction", "set_unspents", "unspents_from_db", "parse_unspents", "unspents_inplace", "unspents_assign",
+               "inputs_edit", "outputs_edit", "redistribute"]
+_HIST_GROUP = {"set_unspents": "set_unspents", "unspents_from_db": "unspents_from_db", "parse_unspents": "parse_unspents",
+               "unspent_replace": "unspents_inplace", "unspent_value": "unspents_inplace", "unspent_script": "unspents_inplace",
+               "unspents_append": "unspents_inplace", "unspents_pop": "unspents_inplace", "unspents_assign": "unspents_assign",
+               "input_pop": "inputs_edit", "input_append": "inputs_edit", "output_value": "outputs_edit",
+               "output_append": "outputs_edit", "output_pop": "outputs_edit", "outputs_assign": "outputs_edit",
+               "redistribute": "redistribute"}
+HIST_ENTRIES = ["create_tx", "manual", "ctor", "from_bin"]
+
+
+def _hist_coins(sources):
+    """every output of every source transaction is a coin: (tx hash, index, true value, true script)"""
+    coins = []
+    for s in sources:
+        h = R.txid_bytes(s)
+        for j, o in enumerate(s["outs"]):
+            coins.append({"tx_hash": h, "tx_out_index": j, "coin_value": o["value"], "script": o["script"]})
+    return coins
+
+
+def _hist_reference(st, coins):
+    """st = {"ins": [coin index], "outs": [value], "unsp": [None | {"coin": index or None, "v": int, "s": bytes}]}.
+    Returns (class, candidates). A candidate is (sum of the recorded values of the coins the inputs spend, does a paired record
+    differ from its source) under one way of pairing records with inputs. class:
+      "consistent"  one record per input, position by position: exactly one candidate, a query must answer with it
+      "surplus"     more records than inputs: a query refuses, or answers with a candidate (records paired by position, or by
+                    outpoint when every input finds exactly one record naming its outpoint) -- never with coins not spent
+      "unrecorded"  an input without a record (list too short, or None): no number is the fee
+      "unjudged"    records and inputs of equal number that the caller itself misaligned (not generated)"""
+    ins, u = st["ins"], st["unsp"]
+    n = len(ins)
+    if any(c is None or c < 0 for c in ins) or len(set(ins)) != n:
+        return "unjudged", []          # an outpoint the model does not know, or spent twice (records could be one shared object)
+
+    def cand(pairs):
+        return (sum(r["v"] for _, r in pairs),
+                any((r["v"], r["s"]) != (coins[c]["coin_value"], coins[c]["script"]) for c, r in pairs))
+    if len(u) < n:
+        return "unrecorded", []
+    positional_missing = any(u[i] is None for i in range(n))
+    aligned = not positional_missing and all(u[i]["coin"] in (None, ins[i]) for i in range(n))
+    if len(u) == n:
+        if positional_missing:
+            return "unrecorded", []
+        return ("consistent", [cand(list(zip(ins, u)))]) if aligned else ("unjudged", [])
+    cands = []
+    if aligned:
+        cands.append(cand(list(zip(ins, u[:n]))))
+    by_coin = {}
+    for r in u:
+        if r is not None and r["coin"] is not None:
+            by_coin.setdefault(r["coin"], []).append(r)
+    if n and all(len(by_coin.get(c, ())) == 1 for c in ins):
+        c2 = cand([(c, by_coin[c][0]) for c in ins])
+        if c2 not in cands:
+            cands.append(c2)
+    if cands:
+        return "surplus", cands
+    return ("unrecorded" if positional_missing else "unjudged"), []
+
+
+def _hist_expected_ok(st, step, coins):
+    """does the documented behaviour let this mutator succeed in state st? (used by the generator only; the executor looks at
+    what really happened)"""
+    op = step["op"]
+    if op == "set_unspents":
+        return len(step["recs"]) == len(st["ins"])
+    if op == "parse_unspents":
+        return True
+    if op == "unspents_from_db":
+        return step["ignore_missing"] or step["missing"] is None or \
+            all(coins[c]["tx_hash"] != coins[step["missing"]]["tx_hash"] for c in st["ins"])
+    if op == "redistribute":
+        outs = [0 if j in step["zero_at"] else v for j, v in enumerate(st["outs"])]
+        klass, cands = _hist_reference(st, coins)
+        return klass == "consistent" and model_build([cands[0][0]], outs, step["fee"])[0] == "ok"
+    if op in ("unspent_value", "unspent_script"):
+        return bool(st["unsp"]) and st["unsp"][step["i"] % len(st["unsp"])] is not None
+    return True
+
+
+def _hist_apply(st, step, coins):
+    """the effect of a mutator that returned normally, on the model"""
+    op = step["op"]
+    u, ins, outs = st["unsp"], st["ins"], st["outs"]
+
+    def cp(r):
+        return None if r is None else {"coin": r.get("coin"), "v": r["v"], "s": r["s"]}
+    if op in ("set_unspents", "unspents_assign"):
+        st["unsp"] = [cp(r) for r in step["recs"]]
+    elif op == "parse_unspents":
+        # the stream format has no room for "no record" other than a zero amount; it carries no outpoints
+        # one record is read per input
+        st["unsp"] = [None if (r is None or r["v"] == 0) else {"coin": None, "v": r["v"], "s": r["s"]} for r in step["recs"]]
+    elif op == "unspents_from_db":
+        gone = None if step["missing"] is None else coins[step["missing"]]["tx_hash"]
+        st["unsp"] = [None if coins[c]["tx_hash"] == gone else {"coin": None, "v": coins[c]["coin_value"], "s": coins[c]["script"]}
+                      for c in ins]
+    elif op == "unspent_replace":
+        if u:
+            u[step["i"] % len(u)] = cp(step["rec"])
+    elif op == "unspent_value":
+        if u and u[step["i"] % len(u)] is not None:
+            u[step["i"] % len(u)]["v"] = step["v"]
+    elif op == "unspent_script":
+        if u and u[step["i"] % len(u)] is not None:
+            u[step["i"] % len(u)]["s"] = step["s"]
+    elif op == "unspents_append":
+        u.append(cp(step["rec"]))
+    elif op == "unspents_pop":
+        if u:
+            u.pop(step["i"] % len(u))
+    elif op == "input_pop":
+        if ins:
+            j = step["i"] % len(ins)
+            ins.pop(j)
+            if step["with_unspent"] and j < len(u):
+                u.pop(j)
+    elif op == "input_append":
+        ins.append(step["coin"])
+        if step.get("rec") is not None:
+            u.append(cp(step["rec"]))
+    elif op == "output_value":
+        if outs:
+            outs[step["j"] % len(outs)] = step["v"]
+    elif op == "output_append":
+        outs.append(step["v"])
+    elif op == "output_pop":
+        if outs:
+            outs.pop()
+    elif op == "outputs_assign":
+        st["outs"] = list(step["values"])
+    elif op == "redistribute":
+        z = [0 if j in step["zero_at"] else v for j, v in enumerate(outs)]
+        klass, cands = _hist_reference(st, coins)
+        if klass == "consistent":
+            verdict, exp = model_build([cands[0][0]], z, step["fee"])
+            st["outs"] = exp if verdict == "ok" else z
+        else:
+            st["outs"] = None           # not generated; resynchronised by the executor
+    else:
+        raise ValueError("unknown history step %r" % op)
+
+
+def _hist_entry_unspents(entry):
+    recs = entry.get("recs") or []
+    if entry["via"] == "from_bin":
+        # one record is read per input; if that fails the transaction has no records at all
+        return [] if len(recs) < len(entry["ins"]) else [None if r is None else dict(r) for r in recs]
+    return [None if r is None else dict(r) for r in recs]
+
+
+def _hist_twin_unspents(st0, step, coins):
+    if step["via"] == "roundtrip":
+        # as_hex(include_unspents=True) writes the records when every input has one, from_hex reads them back (amount and script only)
+        if _hist_reference(st0, coins)[0] != "consistent":
+            return []
+        return [{"coin": None, "v": r["v"], "s": r["s"]} for r in st0["unsp"]]
+    return [dict(r) for r in step["recs"]]
+
+
+def _hist_copy(st):
+    return {"ins": list(st["ins"]), "outs": list(st["outs"]), "unsp": [None if r is None else dict(r) for r in st["unsp"]]}
+
+
+def _gen_history(rng, coins, n_in):
+    """entry + steps of one history, generated against the model alone. Every step is written out (replayable as is)."""
+    order = list(range(len(coins)))
+    rng.shuffle(order)
+    ins = order[:n_in]
+
+    def spare(st):
+        free = [c for c in range(len(coins)) if c not in st["ins"] and all(r is None or r["coin"] != c for r in st["unsp"])]
+        return rng.choice(free) if free else rng.randrange(len(coins))
+
+    def mk_rec(c, p_bad=0.3, form=None):
+        v, s = coins[c]["coin_value"], coins[c]["script"]
+        if rng.random() < p_bad:
+            r = rng.random()
+            if r < 0.3:
+                v += rng.choice([1, 1, 1000, 10 ** 8])
+            elif r < 0.55 and v > 1:
+                v -= rng.choice([1, v // 2, v - 1])
+            elif r < 0.75:
+                v = max(1, v // 100) if v >= 100 else v + 99
+            elif r < 0.9:
+                s = s[:-1] + bytes([s[-1] ^ 1]) if s else b"\x51"
+            else:
+                v, s = v + 1, b"\x6a" + s
+        form = form or rng.choice(["spendable", "spendable", "txout"])
+        return {"coin": c if form == "spendable" else None, "v": v, "s": s}
+
+    def mk_recs(cs, p_bad=0.3, form=None):
+        p = rng.choice([0.0, 0.0, p_bad, p_bad, 0.8])
+        form = form or rng.choice([None, None, "spendable", "txout"])
+        return [mk_rec(c, p, form) for c in cs]
+
+    via = rng.choice(["create_tx", "create_tx", "manual", "ctor", "ctor", "ctor", "from_bin"])
+    entry = {"via": via, "ins": list(ins), "version": rng.choice([1, 1, 2]), "lock_time": rng.choice([0, 0, 1, 500000000])}
+    if via == "create_tx":
+        recs = mk_recs(ins, form="spendable")
+        total = sum(r["v"] for r in recs)
+        k = rng.choice([0, 1, 1, 2, 3]) if total >= 8 else 1
+        fixed = [rng.randrange(1, max(2, total // 4))] if (k == 0 or rng.random() < 0.5) and total >= 8 else []
+        fee = rng.choice([0, 0, 1, 1000, (total - sum(fixed)) // 3])
+        fee = min(fee, total - sum(fixed) - k) if k else fee
+        amounts = fixed + [0] * k
+        rng.shuffle(amounts)
+        entry.update(recs=recs, amounts=amounts, fee=fee, form=rng.choice(["object", "object", "dict", "text", "mixed"]))
+        st = {"ins": list(ins), "unsp": [dict(r) for r in recs], "outs": model_build([r["v"] for r in recs], amounts, fee)[1]}
+    else:
+        true_total = sum(coins[c]["coin_value"] for c in ins)
+        n_out = rng.choice([1, 1, 2, 3])
+        outs = [rng.choice([1, 546, rng.randrange(1, max(2, true_total // n_out + 1)), rng.randrange(1, true_total + 2)]) for _ in range(n_out)]
+        entry["outs"] = outs
+        if via == "from_bin":
+            # the serialised form may carry the recorded outputs after the transaction (pycoin's own extension, as_bin(include_unspents=True))
+            recs = []
+            if rng.random() < 0.6:
+                recs = mk_recs(ins, form="txout")
+                r = rng.random()
+                if r < 0.15:
+                    recs[rng.randrange(len(recs))] = None
+                elif r < 0.3:
+                    recs = recs[:-1]
+        elif via == "manual":
+            recs = mk_recs(ins)
+        else:
+            r = rng.random()
+            if r < 0.4:
+                recs = mk_recs(ins)
+            elif r < 0.6:
+                recs = mk_recs(ins) + [mk_rec(spare({"ins": ins, "unsp": []}), 0.0) for _ in range(rng.choice([1, 1, 2]))]
+            elif r < 0.75:
+                recs = mk_recs(ins)[:-1]
+            elif r < 0.85:
+                recs = None
+            else:
+                recs = mk_recs(ins)
+                recs[rng.randrange(len(recs))] = None
+        entry["recs"] = recs
+        st = {"ins": list(ins), "unsp": _hist_entry_unspents(entry), "outs": list(outs)}
+    states = [st]
+    steps = []
+    n_rounds = rng.choice([1, 2, 2, 3, 3, 4])
+
+    def query(on):
+        q = [x for x in ("fee", "total_in", "total_out") if rng.random() < 0.6] or ["fee"]
+        rng.shuffle(q)
+        if rng.random() < 0.4:
+            q.insert(rng.randrange(len(q) + 1), "validate")
+        return {"op": "query", "on": on, "q": q, "db_form": rng.choice(["dict", "dict", "getter"])}
+
+    def mutator(on):
+        st = states[on]
+        n, m = len(st["ins"]), len(st["unsp"])
+        pick = rng.choice(["set_unspents"] * 6 + ["set_unspents_wrong"] * 2 + ["unspents_from_db"] * 7 + ["from_db_missing"] * 3 +
+                          ["parse_unspents"] * 4 + ["unspent_replace"] * 6 + ["unspent_value"] * 6 + ["unspent_script"] * 2 +
+                          ["unspent_none"] + ["unspents_assign"] * 5 + ["unspents_append"] * 3 + ["unspents_pop"] * 3 +
+                          ["input_pop"] * 5 + ["input_append"] * 3 + ["output_value"] * 4 + ["output_append"] * 2 +
+                          ["output_pop"] * 2 + ["outputs_assign"] * 2 + ["redistribute"] * 3)
+        if pick == "set_unspents":
+            return {"op": "set_unspents", "recs": mk_recs(st["ins"])}
+        if pick == "set_unspents_wrong":
+            recs = mk_recs(st["ins"])
+            return {"op": "set_unspents", "recs": recs[:-1] if rng.random() < 0.5 else recs + [mk_rec(spare(st), 0.0)]}
+        if pick == "unspents_from_db":
+            return {"op": "unspents_from_db", "missing": None, "ignore_missing": rng.random() < 0.3}
+        if pick == "from_db_missing":
+            return {"op": "unspents_from_db", "missing": rng.choice(st["ins"]) if rng.random() < 0.7 else spare(st),
+                    "ignore_missing": rng.random() < 0.7}
+        if pick == "parse_unspents":
+            recs = mk_recs(st["ins"], form="txout")
+            if rng.random() < 0.2:
+                recs[rng.randrange(len(recs))] = None
+            return {"op": "parse_unspents", "recs": recs}
+        if pick in ("unspent_replace", "unspent_none") and m:
+            i = rng.randrange(m)
+            rec = None if pick == "unspent_none" else mk_rec(st["ins"][i] if i < n else spare(st), 0.5)
+            return {"op": "unspent_replace", "i": i, "rec": rec}
+        if pick == "unspent_value" and m:
+            i = rng.randrange(m)
+            c = st["ins"][i] if i < n else None
+            v = coins[c]["coin_value"] if c is not None and rng.random() < 0.5 else \
+                rng.choice([1, 546, (st["unsp"][i] or {"v": 7})["v"] + rng.choice([1, 1000]), rng.randrange(1, MAXV)])
+            return {"op": "unspent_value", "i": i, "v": v}
+        if pick == "unspent_script" and m:
+            i = rng.randrange(m)
+            c = st["ins"][i] if i < n else None
+            return {"op": "unspent_script", "i": i, "s": coins[c]["script"] if c is not None and rng.random() < 0.5 else G.rbytes(rng, 5)}
+        if pick == "unspents_assign":
+            recs = mk_recs(st["ins"])
+            r = rng.random()
+            if r < 0.25:
+                recs = recs + [mk_rec(spare(st), 0.0) for _ in range(rng.choice([1, 1, 3]))]
+            elif r < 0.45:
+                recs = recs[:-1]
+            return {"op": "unspents_assign", "recs": recs}
+        if pick == "unspents_append":
+            return {"op": "unspents_append", "rec": mk_rec(st["ins"][m] if m < n else spare(st), 0.2)}
+        if pick == "unspents_pop" and m:
+            return {"op": "unspents_pop", "i": m - 1 if rng.random() < 0.7 else rng.randrange(m)}
+        if pick == "input_pop" and n > 1:
+            return {"op": "input_pop", "i": n - 1 if rng.random() < 0.5 else rng.randrange(n), "with_unspent": rng.random() < 0.4}
+        if pick == "input_append":
+            c = spare(st)
+            return {"op": "input_append", "coin": c, "rec": mk_rec(c, 0.2) if m == n and rng.random() < 0.5 else None}
+        if pick == "output_value" and st["outs"]:
+            j = rng.randrange(len(st["outs"]))
+            return {"op": "output_value", "j": j, "v": rng.choice([1, st["outs"][j] + 1, max(1, st["outs"][j] - 1), rng.randrange(1, 10 ** 9)])}
+        if pick == "output_append":
+            return {"op": "output_append", "v": rng.choice([1, 546, rng.randrange(1, 10 ** 9)])}
+        if pick == "output_pop" and len(st["outs"]) > 1:
+            return {"op": "output_pop"}
+        if pick == "outputs_assign":
+            return {"op": "outputs_assign", "values": [rng.choice([1, 546, rng.randrange(1, 10 ** 9)]) for _ in range(rng.choice([1, 2, 3]))]}
+        if pick == "redistribute" and st["outs"]:
+            klass, cands = _hist_reference(st, coins)
+            if klass == "consistent":
+                nz = rng.choice([1, 1, 2, len(st["outs"])])
+                zero_at = sorted(rng.sample(range(len(st["outs"])), min(nz, len(st["outs"]))))
+                left = cands[0][0] - sum(v for j, v in enumerate(st["outs"]) if j not in zero_at)
+                fee = rng.choice([0, 1, max(0, left - len(zero_at)), max(0, left // 2), max(0, left - len(zero_at) + 1), left + 5])
+                return {"op": "redistribute", "zero_at": zero_at, "fee": max(0, fee)}
+        return None
+
+    if rng.random() < 0.85:
+        steps.append(query(0))
+    for _ in range(n_rounds):
+        if len(states) == 1 and rng.random() < 0.2:
+            src = states[0]
+            recs = mk_recs(src["ins"], 0.6)
+            step = {"op": "twin", "via": rng.choice(["from_bin", "ctor", "roundtrip"]), "recs": recs}
+            steps.append(step)
+            states.append({"ins": list(src["ins"]), "outs": list(src["outs"]), "unsp": _hist_twin_unspents(src, step, coins)})
+            if rng.random() < 0.5:
+                steps.append(query(1))
+        for _ in range(rng.choice([1, 1, 1, 2])):
+            on = rng.randrange(len(states))
+            for _attempt in range(8):
+                step = mutator(on)
+                if step is None:
+                    continue
+                step["on"] = on
+                trial = _hist_copy(states[on])
+                if _hist_expected_ok(trial, step, coins):
+                    _hist_apply(trial, step, coins)
+                if trial["outs"] is not None and trial["ins"] and _hist_reference(trial, coins)[0] != "unjudged":
+                    states[on] = trial
+                    steps.append(step)
+                    break
+        qs = [query(on) for on in rng.sample(range(len(states)), len(states))]
+        if len(states) == 2 and rng.random() < 0.5:
+            qs = qs[:1]
+        steps.extend(qs)
+    return entry, steps
+
+
+def _hist_obj(Tx, coins, r):
+    if r is None:
+        return None
+    if r["coin"] is None:
+        return Tx.TxOut(r["v"], r["s"])
+    c = coins[r["coin"]]
+    return Tx.Spendable(r["v"], r["s"], c["tx_hash"], c["tx_out_index"])
+
+
+def _hist_read(tx, coins):
+    """the model state as the public attributes of the object show it (used after a mutator did not return normally)"""
+    by_outpoint = {(c["tx_hash"], c["tx_out_index"]): i for i, c in enumerate(coins)}
+    unsp = []
+    for u in tx.unspents:
+        if u is None:
+            unsp.append(None)
+        else:
+            h = getattr(u, "tx_hash", None)
+            unsp.append({"coin": by_outpoint.get((bytes(h), u.tx_out_index)) if h is not None else None, "v": u.coin_value, "s": bytes(u.script)})
+    return {"ins": [by_outpoint.get((bytes(t.previous_hash), t.previous_index), -1) for t in tx.txs_in],
+            "outs": [o.coin_value for o in tx.txs_out], "unsp": unsp}
+
+
+def _hist_build(name, net, coins, entry):
+    Tx = net.tx
+    ins = entry["ins"]
+    if entry["via"] == "create_tx":
+        fields = [{"coin_value": r["v"], "script": r["s"], "tx_hash": coins[c]["tx_hash"], "tx_out_index": coins[c]["tx_out_index"],
+                   "block_index_available": 0, "does_seem_spent": 0, "block_index_spent": 0} for c, r in zip(ins, entry["recs"])]
+        forms = [entry["form"] if entry["form"] != "mixed" else ("object", "text", "dict")[i % 3] for i in range(len(fields))]
+        spendables = [_as_form(Tx.Spendable, f, fm) for f, fm in zip(fields, forms)]
+        return net.tx_utils.create_tx(spendables, _payables(_addresses(name, net), entry["amounts"], None, style="bare"), entry["fee"],
+                                      lock_time=entry["lock_time"], version=entry["version"])
+    txs_in = [Tx.TxIn(coins[c]["tx_hash"], coins[c]["tx_out_index"]) for c in ins]
+    txs_out = [Tx.TxOut(v, b"\x51") for v in entry["outs"]]
+    if entry["via"] == "manual":
+        tx = Tx(entry["version"], txs_in, txs_out, entry["lock_time"])
+        tx.set_unspents([_hist_obj(Tx, coins, r) for r in entry["recs"]])
+        return tx
+    if entry["via"] == "ctor":
+        recs = entry["recs"]
+        return Tx(entry["version"], txs_in, txs_out, entry["lock_time"], unspents=None if recs is None else [_hist_obj(Tx, coins, r) for r in recs])
+    tail = b"".join(R.ser_out({"value": 0, "script": b""} if r is None else {"value": r["v"], "script": r["s"]}) for r in (entry.get("recs") or []))
+    return Tx.from_bin(Tx(entry["version"], txs_in, txs_out, entry["lock_time"]).as_bin() + tail)
+
+
+def _hist_do(net, tx, step, coins, fresh_db):
+    """carry out one mutator on the real object. unspents_from_db gets a database of its own: the records it installs are the
+    output objects of that database's transactions, and the in-place edits of later steps must not reach the database the
+    verifications use"""
+    Tx = net.tx
+    op = step["op"]
+    if op == "set_unspents":
+        tx.set_unspents([_hist_obj(Tx, coins, r) for r in step["recs"]])
+    elif op == "unspents_assign":
+        tx.unspents = [_hist_obj(Tx, coins, r) for r in step["recs"]]
+    elif op == "parse_unspents":
+        import io
+        tx.parse_unspents(io.BytesIO(b"".join(R.ser_out({"value": 0, "script": b""} if r is None else {"value": r["v"], "script": r["s"]})
+                                              for r in step["recs"])))
+    elif op == "unspents_from_db":
+        db = fresh_db()
+        if step["missing"] is not None:
+            del db[coins[step["missing"]]["tx_hash"]]
+        if step["ignore_missing"]:
+            tx.unspents_from_db(db, ignore_missing=True)
+        else:
+            tx.unspents_from_db(db)
+    elif op == "unspent_replace":
+        tx.unspents[step["i"] % len(tx.unspents)] = _hist_obj(Tx, coins, step["rec"])
+    elif op == "unspent_value":
+        tx.unspents[step["i"] % len(tx.unspents)].coin_value = step["v"]
+    elif op == "unspent_script":
+        tx.unspents[step["i"] % len(tx.unspents)].script = step["s"]
+    elif op == "unspents_append":
+        tx.unspents.append(_hist_obj(Tx, coins, step["rec"]))
+    elif op == "unspents_pop":
+        tx.unspents.pop(step["i"] % len(tx.unspents))
+    elif op == "input_pop":
+        j = step["i"] % len(tx.txs_in)
+        tx.txs_in.pop(j)
+        if step["with_unspent"] and j < len(tx.unspents):
+            tx.unspents.pop(j)
+    elif op == "input_append":
+        c = coins[step["coin"]]
+        tx.txs_in.append(Tx.TxIn(c["tx_hash"], c["tx_out_index"]))
+        if step.get("rec") is not None:
+            tx.unspents.append(_hist_obj(Tx, coins, step["rec"]))
+    elif op == "output_value":
+        tx.txs_out[step["j"] % len(tx.txs_out)].coin_value = step["v"]
+    elif op == "output_append":
+        tx.txs_out.append(Tx.TxOut(step["v"], b"\x52"))
+    elif op == "output_pop":
+        tx.txs_out.pop()
+    elif op == "outputs_assign":
+        tx.txs_out = [Tx.TxOut(v, b"\x53") for v in step["values"]]
+    elif op == "redistribute":
+        for j in step["zero_at"]:
+            tx.txs_out[j % len(tx.txs_out)].coin_value = 0
+        net.tx_utils.distribute_from_split_pool(tx, step["fee"])
+    else:
+        raise ValueError("unknown history step %r" % op)
+
+
+class _NoRec(object):
+    def ev(self, *a, **k):
+        pass
+
+
+def _hist_judge_query(rec, viol, tx, st, coins, step, db_objs, reported):
+    """one query step: each reading against the reference computed afresh from the model. viol(family, stale, observed, expected)"""
+    klass, cands = _hist_reference(st, coins)
+    rec.ev("history.state." + klass)
+    out_sum = sum(st["outs"])
+    got = {}
+    for q in step["q"]:
+        if q == "total_out":
+            rec.ev("Tx.total_out")
+            s, r = observe(tx.total_out)
+            if s != "ok" or r != out_sum:
+                viol("tx.total_out.mismatch", s == "ok" and r in reported["total_out"], r, out_sum)
+            if s == "ok":
+                reported["total_out"].append(r)
+                got[q] = r
+            continue
+        if q == "validate":
+            rec.ev("Tx.validate_unspents")
+            db = _Getter(db_objs) if step.get("db_form") == "getter" else db_objs
+            s, r = observe(tx.validate_unspents, db)
+            name_, off = "validate_unspents", out_sum
+        else:
+            rec.ev("Tx." + q)
+            s, r = observe(getattr(tx, q))
+            name_, off = "tx." + q, (out_sum if q == "fee" else 0)
+        stale = s == "ok" and r in (reported["total_in"] if q == "total_in" else reported["fee"])
+        if s == "ok":
+            reported["total_in" if q == "total_in" else "fee"].append(r)
+            if q != "validate":
+                got[q] = r
+        if klass == "unjudged":
+            continue
+        if klass == "unrecorded":
+            if s == "ok":
+                viol(name_ + ".number_with_unrecorded_input", stale, r, "no number: an input has no recorded amount")
+            else:
+                rec.ev("history.refused")
+            continue
+        honest = [c - off for c, bad in cands if not bad]
+        if q == "validate":
+            if s == "ok":
+                if not honest:
+                    kinds = set()
+                    n = len(st["ins"])
+                    for c, u in zip(st["ins"], st["unsp"][:n]):
+                        if u is not None and u["v"] != coins[c]["coin_value"]:
+                            kinds.add("amount")
+                        if u is not None and u["s"] != coins[c]["script"]:
+                            kinds.add("script")
+                    viol("validate_unspents.accepts_discrepancy." + ("_and_".join(sorted(kinds)) or "amount"), False, r, "does not return normally")
+                elif r not in honest:
+                    if klass == "surplus":
+                        viol("validate_unspents.surplus_unspents_counted", stale, r, "refuses, or one of %r" % (honest,))
+                    else:
+                        viol("validate_unspents.wrong_fee", stale, r, honest[0])
+            elif klass == "consistent" and honest:
+                viol("validate_unspents.rejects_matching", False, r, honest[0])
+            else:
+                rec.ev("history.refused")
+            continue
+        allowed = [c - off for c, bad in cands]
+        if s != "ok":
+            if klass == "consistent":
+                viol(name_ + ".refuses_complete_records", False, r, allowed[0])
+            else:
+                rec.ev("history.refused")
+        elif r not in allowed:
+            if klass == "surplus":
+                viol(name_ + ".surplus_unspents_counted", stale, r, "refuses, or one of %r" % (allowed,))
+            elif q == "fee":
+                viol("tx.fee.not_in_minus_out", stale, r, allowed[0])
+            else:
+                viol("tx.total_in.mismatch", stale, r, allowed[0])
+    if len(got) == 3 and got["fee"] != got["total_in"] - got["total_out"]:
+        viol("tx.fee.not_total_in_minus_total_out", False, got["fee"], got["total_in"] - got["total_out"])
+
+
+def _exec_history(name, net, case, rec=None):
+    """run one history on fresh objects; returns [(family, stale, step index, observed, expected)]"""
+    rec = rec or _NoRec()
+    Tx = net.tx
+    sources = case["sources"]
+    coins = _hist_coins(sources)
+    entry, steps = case["entry"], case["steps"]
+    out = []
+
+    def fresh_db():
+        return {R.txid_bytes(s): G.to_pycoin(Tx, s) for s in sources}
+    db_objs = fresh_db()
+    rec.ev("history.entry." + entry["via"])
+    s, tx = observe(_hist_build, name, net, coins, entry)
+    if s != "ok":
+        return [("history.setup_failed", False, -1, tx, "transaction")]
+    if entry["via"] == "create_tx":
+        rec.ev("create_tx")
+        st = {"ins": list(entry["ins"]), "unsp": [dict(r) for r in entry["recs"]],
+              "outs": model_build([r["v"] for r in entry["recs"]], entry["amounts"], entry["fee"])[1]}
+    else:
+        st = {"ins": list(entry["ins"]), "unsp": _hist_entry_unspents(entry), "outs": list(entry["outs"])}
+    objs = [[tx, st, {"fee": [], "total_in": [], "total_out": []}]]
+    for at, step in enumerate(steps):
+        op = step["op"]
+        if op == "twin":
+            if len(objs) > 1:
+                continue
+            tx0, st0 = objs[0][0], objs[0][1]
+            recs = step["recs"]
+
+            def twin():
+                if step["via"] == "from_bin":
+                    t = Tx.from_bin(tx0.as_bin())
+                    t.set_unspents([_hist_obj(Tx, coins, r) for r in recs])
+                    return t
+                if step["via"] == "roundtrip":
+                    return Tx.from_hex(tx0.as_hex(include_unspents=True))
+                return Tx(tx0.version, [Tx.TxIn(t.previous_hash, t.previous_index, t.script, t.sequence) for t in tx0.txs_in],
+                          [Tx.TxOut(o.coin_value, o.script) for o in tx0.txs_out], tx0.lock_time,
+                          unspents=[_hist_obj(Tx, coins, r) for r in recs])
+            s, t2 = observe(twin)
+            if s != "ok":
+                out.append(("history.setup_failed", False, at, t2, "second transaction object"))
+                return out
+            rec.ev("history.twin")
+            objs.append([t2, {"ins": list(st0["ins"]), "outs": list(st0["outs"]), "unsp": _hist_twin_unspents(st0, step, coins)},
+                         {"fee": [], "total_in": [], "total_out": []}])
+            continue
+        if step["on"] >= len(objs):
+            continue
+        o = objs[step["on"]]
+        if op == "query":
+            _hist_judge_query(rec, lambda fam, stale, obs, exp: out.append((fam, stale, at, obs, exp)), o[0], o[1], coins, step, db_objs, o[2])
+            continue
+        rec.ev("history.mutator." + _HIST_GROUP[op])
+        s, e = observe(_hist_do, net, o[0], step, coins, fresh_db)
+        if s == "ok":
+            _hist_apply(o[1], step, coins)
+            if o[1]["outs"] is None:
+                o[1]["outs"] = [x.coin_value for x in o[0].txs_out]
+        else:
+            rec.ev("history.mutator_refused")
+            s2, st2 = observe(_hist_read, o[0], coins)
+            if s2 != "ok":
+                return out
+            o[1] = st2
+    return out
+
+
+_REDUCED = {}
+
+
+def _run_history(name, net, rec, case):
+    """execute, and for each family of disagreement reduce the history to the steps the disagreement needs, so that the
+    mechanism key names the cause (which kind of change, and whether an earlier reading is needed) and the witness is short"""
+    viols = _exec_history(name, net, case, rec)
+    done = set()
+    for fam, stale, at, obs, exp in viols:
+        if fam in done or _REDUCED.get(fam, 0) >= 40:      # enough witnesses of this family from this shard
+            continue
+        done.add(fam)
+        _REDUCED[fam] = _REDUCED.get(fam, 0) + 1
+        if at < 0:
+            rec.violation(fam, case, obs, exp)
+            continue
+        steps = list(case["steps"][:at + 1])
+
+        def hit(steps2):
+            for v in _exec_history(name, net, dict(case, steps=steps2)):
+                if v[0] == fam and v[2] == len(steps2) - 1:
+                    return v
+            return None
+        if hit(steps) is None:              # not reproducible on fresh objects: report as seen
+            rec.violation(fam + ".unreduced", case, obs, exp)
+            continue
+        q1 = "validate" if fam.startswith("validate_unspents") else fam.split(".")[1]
+        if q1 in steps[-1]["q"] and len(steps[-1]["q"]) > 1 and hit(steps[:-1] + [dict(steps[-1], q=[q1])]):
+            steps[-1] = dict(steps[-1], q=[q1])
+        changed = True
+        while changed:
+            changed = False
+            i = len(steps) - 2
+            while i >= 0:
+                trial = steps[:i] + steps[i + 1:]
+                if hit(trial):
+                    steps, changed = trial, True
+                i -= 1
+        v = hit(steps)
+        # the key: is an earlier reading needed, and which kinds of change lie between it (or construction) and the failing reading
+        groups, read = set(), False
+        for s_ in steps[:-1]:
+            if s_["op"] == "query":
+                groups, read = set(), True
+            elif s_["op"] != "twin":
+                groups.add(_HIST_GROUP[s_["op"]] if s_["on"] == steps[-1]["on"] else "other_object_" + _HIST_GROUP[s_["op"]])
+            elif steps[-1]["on"] == 0:
+                groups.add("second_object")        # (for a reading on the second object the step is its construction)
+        mech = fam + ".after_" + ("+".join((["reading"] if read else []) + sorted(groups)) or "construction")
+        rec.violation(mech, dict(case, steps=steps), v[3], v[4])
+
+
+def _check_history(name, net, rng, rec):
+    n_in = rng.choice([1, 1, 2, 2, 3, 4, 5])
+    sources = [_source_tx(rng, rng.choice([1, 2, 3]), tag) for tag in range(rng.choice([n_in, n_in, max(1, n_in - 1)]) + 1)]
+    coins = _hist_coins(sources)
+    while len(coins) < n_in + 1:
+        sources.append(_source_tx(rng, 3, len(sources)))
+        coins = _hist_coins(sources)
+    entry, steps = _gen_history(rng, coins, n_in)
+    case = {"kind": "history", "net": name, "sources": sources, "entry": entry, "steps": steps}
+    rec.case(("history", entry["via"], n_in, tuple((s["op"], s.get("on"), tuple(s.get("q", ()))) for s in steps)), nontrivial=True)
+    _run_history(name, net, rec, case)
+
+
+def run_history(spec, rec, nets):
+    rng = shard_rng(spec["seed"], PROPERTY, spec["tier"], spec["shard"])
+    names = list(nets)
+    for i in range(spec["n"]):
+        name = names[i % len(names)]
+        _check_history(name, nets[name], rng, rec)
+    rec.require("Tx.fee", "Tx.total_in", "Tx.total_out", "Tx.validate_unspents", "history.twin", "history.refused", "history.mutator_refused",
+                *(["history.state." + k for k in ("consistent", "surplus", "unrecorded")] + ["history.entry." + e for e in HIST_ENTRIES] +
+                  ["history.mutator." + g for g in HIST_GROUPS if g != "construction"]))
+
+
+# ---------------------------------------------------------------------------------------------
 # converters
 
 def _dec_strings(x, places):
@@ -933,6 +1671,8 @@ def run_shard(spec, rec):
         return run_build_sweep(spec, rec, nets)
     if kind == "validate":
         return run_validate(spec, rec, nets)
+    if kind == "history":
+        return run_history(spec, rec, nets)
     rec.require("create_tx", "expected_error", "expected_tx", "aftermath.spendables_list_edit", "aftermath.second_build")
     rng = shard_rng(spec["seed"], PROPERTY, spec["tier"], spec["shard"])
     names = list(nets)
@@ -987,5 +1727,29 @@ def replay_case(case, rec):
         sides = {"G": side, "B": None} if disc == "none" else \
             {"B": side, "G": (recs(case["good_recorded"]), dbs(case["good_db"])) if "good_recorded" in case else None}
         _judge_validate(name, nets[name], rec, case, sides, disc, setting)
+        return
+    if kind == "history":
+        def fix_rec(r):
+            return None if r is None else {"coin": None if r.get("coin") is None else int(r["coin"]), "v": int(r["v"]), "s": G._unpack_bytes(r["s"])}
+
+        def fix(d):
+            d = dict(d)
+            for key in ("recs",):
+                if d.get(key) is not None:
+                    d[key] = [fix_rec(r) for r in d[key]]
+            if "rec" in d:
+                d["rec"] = fix_rec(d["rec"])
+            if "s" in d:
+                d["s"] = G._unpack_bytes(d["s"])
+            for key in ("v", "fee", "i", "j", "coin", "missing", "on", "version", "lock_time"):
+                if d.get(key) is not None:
+                    d[key] = int(d[key])
+            for key in ("ins", "outs", "amounts", "values", "zero_at"):
+                if d.get(key) is not None:
+                    d[key] = [int(v) for v in d[key]]
+            return d
+        c2 = {"kind": "history", "net": name, "sources": [G.unpack(s_) for s_ in case["sources"]], "entry": fix(case["entry"]),
+              "steps": [fix(s_) for s_ in case["steps"]]}
+        _run_history(name, nets[name], rec, c2)
         return
     raise ValueError("unknown case kind %r" % kind)
